@@ -2,7 +2,7 @@
 import json, math, os, sys, time
 import common, extract
 
-LEAN_MODULE = "ESRVerif.Props.C07"
+LEAN_MODULE = ["ESRVerif.Props.C07", "ESRVerif.Props.C07c"]
 LEVEL = "proof"
 LEVEL_TEXT = ("Lean theorems over the hand model of convert_params lines 110-239 (likelihood closure, first Hessian diagonal and outcome of the "
               "step-size fallback are inputs), proved over extended reals (finite real | +inf | -inf | NaN with IEEE propagation) for every "
@@ -10,25 +10,37 @@ LEVEL_TEXT = ("Lean theorems over the hand model of convert_params lines 110-239
               "likelihood is finite, reported parameters carry the zeros, reported nll is the likelihood at the reported parameters, "
               "bad curvature -> NaN, k=0 -> 0, consistency in the subset-search branch, no Python error reachable.  The decision sites and "
               "the code-length expression are regenerated from the source; the model is tied to the real routine by correspondence on "
-              "linear-Gaussian and pole-type models with the Hessian the routine really used captured by wrapping numdifftools.Hessian.")
+              "linear-Gaussian and pole-type models with the Hessian the routine really used captured by wrapping numdifftools.Hessian.  "
+              "Props/C07c (row and call independence of the stage): the in-place writes of main's loop and of convert_params are regenerated with "
+              "their origins (fresh | the row's own stage-1 slot | shared; harness/extractors/_norm_c05.py joined at the call sites); "
+              "fisher_rows_do_not_share_state is a decide over that table, fisherStage_eq_fisherFile proves that the loop as written with the "
+              "in-place snap is Model/Stages.fisherRow mapped over (function, stage-1 row) for every rank count, with the retry after NameError "
+              "computed on the slot as the first attempt left it (retry_computes; retry_fresh_of_slot_untouched); tied to the code by running the "
+              "real test_all_Fisher.main on synthetic libraries under base/reversed/shuffled/one-removed/2- and 3-rank schedules and comparing "
+              "every output row with the base schedule, with fresh-copy calls of the routine (oracle-checked) and with the fisherFile model.")
 TECHNIQUE = ("Lean 4 proof over a NumOps-polymorphic hand model (Float instance executable, XR-over-R instance for proofs, Mathlib for log/sqrt) "
              "+ regenerated expression AST / tests + model-code correspondence + independent closed-form oracle on the real code")
-RULE = ("cases drawn from VERIF_SEED: (model family, data set, theta with each coordinate placed below/near/at/above the snapping threshold "
+RULE = ("[family] libraries of 10-13 functions on one data set (linear below/at/above threshold, forced non-finite likelihoods, exact-threshold, "
+        "first-Hessian-unusable, pole, no-parameter, nan/inf stage-1 likelihood, NameError before / behind the snap) x 6 schedules; [calls] "
+        "cases drawn from VERIF_SEED: (model family, data set, theta with each coordinate placed below/near/at/above the snapping threshold "
         "|theta|sqrt(F/12)=1, max_param, optional forced non-finite likelihood on chosen zero patterns, optional perturbation of the Hessians "
         "numdifftools returns); distinct = (function string, decision vector of the coordinates, branch taken, injections); non-trivial = at "
         "least one coordinate below threshold or a fallback/NaN/search branch")
 EXPLANATION = LEVEL_TEXT
-TRUSTED = ["hand model ESRVerif/Model/Codelen.lean of convert_params lines 110-239 (tied by correspondence incl. the sequence of likelihood evaluations)",
+TRUSTED = ["harness/extractors/_norm_c05.py freshness rules; callees other than convert_params are assumed not to write their array arguments; "
+           "the scripted NameError (raised by the likelihood before / behind the snap) stands for 'function not implemented in numpy'",
+           "hand model ESRVerif/Model/Codelen.lean of convert_params lines 110-239 (tied by correspondence incl. the sequence of likelihood evaluations)",
            "harness/extractors/codelen.py (expression and test extraction)",
            "numdifftools.Hessian, scipy.stats.mode and the .3e/.1e rounding of the fallback selection (not modelled; outcome captured and passed to the model)",
            "IEEE rounding/overflow and signed zeros are not modelled by the extended-real instance; numpy log vs libm log compared to 1e-9"]
-ASSUMPTIONS = ["theta_ML is a float ndarray of length >= nparam, nparam <= max_param (as main passes it)",
+ASSUMPTIONS = ["C07c: no retry raises (Props/C14c NoCrash), stage-1 table has one row per function and >= 4 parameter columns",
+               "theta_ML is a float ndarray of length >= nparam, nparam <= max_param (as main passes it)",
                "the likelihood closure is a deterministic function of the parameter vector",
                "the argument negloglike is the likelihood at theta_ML (for the clause 'reported nll is the likelihood at the reported parameters' when nothing is snapped)"]
 # tables whose committed version may stand in as a hand-written model when the translator cannot read the source;
 # value = the correspondence that then ties it to the code (common.prove / common.decide)
 FALLBACK = {'Codelen': 'real convert_params with captured Hessians vs the Lean codelen model (decisions exact, magnitudes 1e-9)'}
-MODELLED = ["test_all_Fisher.py:convert_params"]
+MODELLED = ["test_all_Fisher.py:convert_params", "test_all_Fisher.py:main"]
 
 BASES = ["x", "1", "x**2", "x**3", "inv(x)", "sqrt(x)", "log(x)"]
 SCALES = [0.0, 1e-6, 0.05, 0.3, 0.9, 0.999, 1 - 1e-12, 1.0, 1 + 1e-12, 1.001, 1.1, 3.0, 100.0, 1e6]
@@ -625,6 +637,391 @@ def process(ctx, cases, record=True):
     return dict(n=len(cases), mismatches=nbad, deriv_ops=len(flat_ops), deriv_mismatch=nflat_bad, branches=branches)
 
 
+
+# --------------------------------------------------------------------------------------------------------------
+# C07c: row and call independence of the Fisher stage (the REAL test_all_Fisher.main over synthetic libraries)
+# --------------------------------------------------------------------------------------------------------------
+
+def _r7(v):
+    """a value as np.savetxt(fmt='%.7e') writes and np.loadtxt reads it back"""
+    v = float(v)
+    return v if v != v or math.isinf(v) else float("%.7e" % v)
+
+
+def _row_eq(a, b):
+    return len(a) == len(b) and all(_same(float(x), float(y)) for x, y in zip(a, b))
+
+
+def _gen_flags():
+    try:
+        src = open(os.path.join(common.LEAN, "ESRVerif", "Generated", "FisherAlias.lean")).read()
+    except Exception:
+        return {}
+    out = {}
+    for name in ("retryReadsSlot", "slotReadByOtherRows", "slotReadAfterLoop"):
+        for ln in src.splitlines():
+            if ln.startswith("def %s : Bool :=" % name):
+                out[name] = ln.split(":=")[1].strip() == "true"
+    return out
+
+
+def _scripted_call(ctx, case, arr, ne=None):
+    """the real convert_params on the array OBJECT `arr` (no copy), the case's scripts active; ne: None | 'first' | 'after-snap'
+    -> ('ok', params, nll, deriv, codelen) | ('NameError',) | ('raised', text)"""
+    import io, contextlib
+    env = _env(ctx)
+    np, taf, rec = env["np"], env["taf"], env["rec"]
+    lik = _likelihood(ctx, env, case["data"])
+    fcn, eq, integ = lik.run_sympify(case["fcn"])
+    n = case["n"]
+    rec.hcalls, rec.post, rec.in_h, rec.on = [], [], False, False
+    rec.pattern, rec.hinj = case.get("pattern"), case.get("hinj")
+    st = dict(evals=0, post=0)
+    base = type(lik).negloglike
+
+    def nl(a, eq_numpy, **kw):
+        if ne == "first" and st["evals"] == 0:
+            st["evals"] += 1
+            raise NameError("scripted")
+        if ne == "after-snap" and not rec.in_h and rec.hcalls and st["post"] == 0:
+            st["post"] += 1
+            raise NameError("scripted")
+        st["evals"] += 1
+        return base(lik, a, eq_numpy, **kw)
+    lik.negloglike = nl
+    try:
+        with contextlib.redirect_stdout(io.StringIO()), np.errstate(all="ignore"):
+            params, nll, deriv, codelen = taf.convert_params(fcn, eq, integ, arr, lik, case["nll_in"], max_param=case["max_param"])
+        return ("ok", [float(v) for v in params], float(nll), [float(v) for v in deriv], float(codelen))
+    except NameError:
+        return ("NameError",)
+    except BaseException as e:
+        return ("raised", "%s: %s" % (type(e).__name__, e))
+    finally:
+        del lik.negloglike
+        rec.pattern, rec.hinj = None, None
+
+
+def _nll_in(ctx, case):
+    import sympy
+    from esr.fitting.sympy_symbols import x as sx
+    env = _env(ctx)
+    np = env["np"]
+    lik = _likelihood(ctx, env, case["data"])
+    n = case["n"]
+    fcn, eq, integ = lik.run_sympify(case["fcn"])
+    if n == 0:
+        f = sympy.lambdify([sx], eq, modules=["numpy"])
+        return float(lik.negloglike([], f))
+    syms = list(sympy.symbols(" ".join("a%d" % i for i in range(n)), real=True)) if n > 1 else [sympy.symbols("a0", real=True)]
+    f = sympy.lambdify([sx] + syms, eq, modules=["numpy"])
+    with np.errstate(all="ignore"):
+        return float(lik.negloglike(np.array(case["theta"], dtype=float), f))
+
+
+def expected_row(ctx, case, tryInt, retry_reads):
+    """what the output rows of function `case` must be, from calls of the real routine outside main (fresh copies; for the retry after a
+    NameError raised behind the snap: the two calls on one array object, as main makes them).  -> (codelen row, derivs row, info)"""
+    np = _env(ctx)["np"]
+    mp = case["max_param"]
+    dw = mp * (mp + 1) // 2
+    v = float(case["nll1"])
+    if v != v or math.isinf(v):
+        return [float("nan"), v] + [0.0] * mp, [0.0] * dw, dict(kind="bad-nll")
+    flat = ([0.0, _r7(v)] + [0.0] * mp, [0.0] * dw)
+    th = np.zeros(mp)
+    th[:case["n"]] = case["theta"]
+    ne = case.get("ne")
+    if ne and not tryInt:
+        return flat[0], flat[1], dict(kind="nameerror-no-retry")
+    if case["n"] == 0:
+        r = _scripted_call(ctx, case, th.copy(), None)
+        return [_r7(r[4]), _r7(r[2])] + [_r7(t) for t in r[1]], [_r7(t) for t in r[3]], dict(kind="fresh")
+    fresh = _scripted_call(ctx, case, th.copy(), None)
+    info = dict(kind="fresh", fresh=fresh)
+    use = fresh
+    if ne == "after-snap":
+        arr = th.copy()
+        first = _scripted_call(ctx, case, arr, "after-snap")
+        info["first"] = first[0]
+        info["slot_after_first"] = [float(t) for t in arr]
+        second = _scripted_call(ctx, case, arr, None)
+        info["same_object_retry"] = second
+        info["kind"] = "retry-after-snap"
+        if first[0] == "NameError" and retry_reads:
+            use = second
+    elif ne == "first":
+        info["kind"] = "retry-fresh"
+    if use[0] != "ok":
+        info["kind"] += "+raised"
+        return flat[0], flat[1], info
+    return [_r7(use[4]), _r7(use[2])] + [_r7(t) for t in use[1]], [_r7(t) for t in use[3]], info
+
+
+def gen_family(ctx, deep):
+    rng = ctx.rng
+    libs = []
+    for li in range(8 if deep else 3):
+        data = _dataset(rng)
+        data["y"] = [rng.gauss(0, 1) * s for s in data["s"]]
+        ds = [data]
+        funcs = []
+        _gl = globals()["gen_linear"]
+
+        def gen_linear(rng, ds, inject=None):
+            # one data set for the whole library: keep the residuals (hence the rounding error of the numerical Hessian) small
+            for _ in range(200):
+                c = _gl(rng, ds, inject)
+                if max(c["scales"]) <= 3.0:
+                    break
+            return c
+
+        def add(c, **kw):
+            c = dict(c)
+            c["max_param"] = 4
+            c["data"] = data
+            c.update(kw)
+            funcs.append(c)
+        for _ in range(4 if not deep else 6):
+            add(gen_linear(rng, ds))
+        add(gen_linear(rng, ds, inject="pattern"))
+        add(gen_linear(rng, ds, inject="exact"))
+        h = gen_linear(rng, ds, inject="hessian")
+        h["hinj"] = dict(which="first", idx=rng.randrange(h["n"]), value=rng.choice(["zero", "neg", "nan", "inf"]), mod=0)
+        add(h)                                                # first Hessian unusable, the fallback re-selects
+        add(gen_pole(rng, ds))
+        add(gen_noparam(rng, ds))
+        add(gen_linear(rng, ds), nll1=rng.choice(["nan", "inf"]))
+        if li % 3 != 2 or deep:
+            add(gen_linear(rng, ds), ne="first")
+            for _ in range(20):
+                c = gen_linear(rng, ds)
+                if c["n"] >= 2 and any(sc < 0.95 for sc in c["scales"]) and any(sc > 1.05 for sc in c["scales"]):
+                    break
+            if any(sc < 0.95 for sc in c["scales"]):
+                add(c, ne="after-snap")
+            add(gen_pole(rng, ds), ne="after-snap")
+        rng.shuffle(funcs)
+        for i, c in enumerate(funcs):
+            c["fid"] = i
+            c["nll_in"] = _nll_in(ctx, c)
+            c.setdefault("nll1", c["nll_in"])
+            if c.get("ne") == "after-snap":
+                # the script raises at the first likelihood evaluation BEHIND the Hessian: only where the routine gets that far
+                th = _env(ctx)["np"].zeros(4)
+                th[:c["n"]] = c["theta"]
+                if _scripted_call(ctx, c, th, "after-snap")[0] != "NameError":
+                    del c["ne"]
+        libs.append(dict(name="L%d" % li, data=data, funcs=funcs, tryInt=(li % 3 != 1)))
+    return libs
+
+
+def fam_schedules(rng, n):
+    base = list(range(n))
+    sh = list(base)
+    rng.shuffle(sh)
+    j = rng.randrange(n)
+    return [("base", base, 1), ("reversed", base[::-1], 1), ("shuffled", sh, 1), ("removed%d" % j, [i for i in base if i != j], 1),
+            ("ranks2", base, 2), ("ranks3", sh, 3)]
+
+
+FAM_KEYS = ("fcn", "n", "theta", "max_param", "pattern", "hinj", "nll1", "ne", "kind", "bases", "scales", "nll_in", "fid")
+
+
+def run_family_jobs(ctx, jobs, tag):
+    """jobs: dict(lib (dict), label, order, P) -> adds 'cl', 'dv' (float rows as listed) or 'error'"""
+    import mpirun
+    from concurrent.futures import ThreadPoolExecutor
+    byP = {}
+    for k, j in enumerate(jobs):
+        j["comp"] = k + 1
+        byP.setdefault(j["P"], []).append(j)
+
+    def work(P):
+        d = os.path.join(ctx.tmp, "c07fam_%s_P%d" % (tag, P))
+        os.makedirs(d, exist_ok=True)
+        spec = dict(harness=common.HARNESS, tmp=d, jobs=[
+            dict(comp=j["comp"], dir=os.path.join(d, "job%d" % j["comp"]), data=j["lib"]["data"], tryInt=j["lib"]["tryInt"],
+                 listing=[{k_: j["lib"]["funcs"][f][k_] for k_ in FAM_KEYS if k_ in j["lib"]["funcs"][f]} for f in j["order"]]) for j in byP[P]])
+        for sj in spec["jobs"]:
+            os.makedirs(sj["dir"], exist_ok=True)
+        jf, of = os.path.join(d, "jobs.json"), os.path.join(d, "out.json")
+        json.dump(spec, open(jf, "w"))
+        r = mpirun.run(P, [os.path.join(common.HARNESS, "workers", "fisher_family.py"), jf, of], env_extra=ctx.env(), cwd=d, timeout=900, stdout_dir=d)
+        if not r["ok"] or not os.path.exists(of):
+            tail = ""
+            try:
+                tail = "\n".join(open(pth).read()[-600:] for pth in r["stdout"])
+            except Exception:
+                pass
+            for j in byP[P]:
+                j["error"] = "real test_all_Fisher.main did not complete on %d rank(s): %s %s ... %s" % (P, r.get("error"), r.get("exit_codes"), tail[-900:])
+            return
+        for j, res in zip(byP[P], json.load(open(of))):
+            j["cl"] = [[float(t) for t in ln.split()] for ln in res[0]]
+            j["dv"] = [[float(t) for t in ln.split()] for ln in res[1]]
+    with ThreadPoolExecutor(max_workers=3) as ex:
+        list(ex.map(work, sorted(byP)))
+    return jobs
+
+
+def _slimlib(lib):
+    return dict(name=lib["name"], data=lib["data"], tryInt=lib["tryInt"], funcs=[{k_: c[k_] for k_ in FAM_KEYS if k_ in c} for c in lib["funcs"]])
+
+
+def _in_quantifier(c):
+    """a linear-in-parameter Gaussian model with nothing scripted into the likelihood or the Hessian"""
+    return c["kind"] == "linear" and not c.get("pattern") and not c.get("hinj")
+
+
+def family_check(ctx, deep):
+    import stages_corr
+    t0 = time.time()
+    flags = _gen_flags()
+    rr = flags.get("retryReadsSlot", True)
+    libs = gen_family(ctx, deep)
+    for lib in libs:
+        for c in lib["funcs"]:
+            c["data"] = lib["data"]
+    jobs = []
+    for lib in libs:
+        for label, order, P in fam_schedules(ctx.rng, len(lib["funcs"])):
+            jobs.append(dict(lib=lib, label=label, order=order, P=P))
+    run_family_jobs(ctx, jobs, "run")
+    stats = dict(libraries={l["name"]: len(l["funcs"]) for l in libs}, schedules=sorted(set(j["label"].rstrip("0123456789") for j in jobs)), rows_run=0,
+                 rows_compared_with_base=0, rows_differing=0, rows_compared_with_calls=0, retry_rows=0, retry_rows_where_slot_matters=0,
+                 model_files=0, model_file_mismatch=0, retryReadsSlot=rr)
+    ops, opjobs = [], []
+    for lib in libs:
+        slim = _slimlib(lib)
+        exp = {}
+        for c in lib["funcs"]:
+            exp[c["fid"]] = expected_row(ctx, c, lib["tryInt"], rr)
+        lj = [j for j in jobs if j["lib"] is lib]
+        base = lj[0]
+        for j in lj:
+            if "error" in j:
+                ctx.fail("test_all_Fisher.main:family-run:%s" % j["label"].rstrip("0123456789"), "library %s schedule %s (P=%d): %s" % (lib["name"], j["label"], j["P"], j["error"]),
+                         dict(kind="family", lib=slim, fid=None, a=dict(label=j["label"], order=j["order"], P=j["P"]), b=None))
+                continue
+            if len(j["cl"]) != len(j["order"]) or len(j["dv"]) != len(j["order"]):
+                ctx.fail("test_all_Fisher.main:row-count", "library %s schedule %s (P=%d): %d/%d rows for %d functions" % (lib["name"], j["label"], j["P"], len(j["cl"]), len(j["dv"]), len(j["order"])),
+                         dict(kind="family", lib=slim, fid=None, a=dict(label=j["label"], order=j["order"], P=j["P"]), b=None))
+                j["error"] = "row count"
+                continue
+            j["rows"] = {fid: (j["cl"][i], j["dv"][i]) for i, fid in enumerate(j["order"])}
+            stats["rows_run"] += len(j["order"])
+        if "error" in base:
+            continue
+        for j in lj:
+            if "error" in j:
+                continue
+            for pos, fid in enumerate(j["order"]):
+                c = lib["funcs"][fid]
+                got = j["rows"][fid]
+                ecl, edv, info = exp[fid]
+                kindkey = c["kind"].split(":")[0] + ("+ne-" + c["ne"] if c.get("ne") else "")
+                if j is not base:
+                    stats["rows_compared_with_base"] += 1
+                    b = base["rows"][fid]
+                    if not (_row_eq(got[0], b[0]) and _row_eq(got[1], b[1])):
+                        stats["rows_differing"] += 1
+                        ctx.fail("test_all_Fisher.main:row-independence:%s" % kindkey,
+                                 "function %r (theta=%r, stage-1 nll %r) gets the row %r / derivs %r in schedule %s (P=%d, listed at position %d) but %r / %r in schedule base "
+                                 "(P=1, position %d) of the same library %s; the routine called on a fresh copy gives %r"
+                                 % (c["fcn"], c["theta"], c["nll1"], got[0], got[1][:4], j["label"], j["P"], pos, b[0], b[1][:4], fid, lib["name"], ecl),
+                                 dict(kind="family", lib=slim, fid=fid, a=dict(label=j["label"], order=j["order"], P=j["P"]), b=dict(label="base", order=base["order"], P=1)))
+                        continue
+                # the row is what the routine returns for this function and this stage-1 row (oracle-checked separately, see process)
+                stats["rows_compared_with_calls"] += 1
+                if c.get("ne") and lib["tryInt"]:
+                    stats["retry_rows"] += 1
+                    if info.get("same_object_retry") and info.get("fresh") and info["same_object_retry"] != info["fresh"]:
+                        stats["retry_rows_where_slot_matters"] += 1
+                if not (_row_eq(got[0], ecl) and _row_eq(got[1], edv)):
+                    what = ("function %r (theta=%r, stage-1 nll %r, %s) gets the row %r / derivs %r from test_all_Fisher.main (schedule %s, P=%d, position %d) but the routine called "
+                            "outside main (%s) gives %r / %r" % (c["fcn"], c["theta"], c["nll1"], c["kind"], got[0], got[1][:4], j["label"], j["P"], pos, info["kind"], ecl, edv[:4]))
+                    rp = dict(kind="family-call", lib=slim, fid=fid, a=dict(label=j["label"], order=j["order"], P=j["P"]))
+                    if info["kind"].startswith("retry-after-snap") and not _in_quantifier(c):
+                        # outside the property's quantifier (a likelihood that raises NameError on some parameter vectors only): the regenerated
+                        # flag retryReadsSlot must describe what main does
+                        ctx.disagree("corr:retry-reads-slot", what)
+                    else:
+                        ctx.fail("test_all_Fisher.main:row-vs-call:%s" % kindkey, what, rp)
+        # the loop model: Model/Stages.fisherFile on the outcomes the routine has outside main
+        def otok(fid, which):
+            c = lib["funcs"][fid]
+            if which == 0 and c.get("ne"):
+                return "ne"
+            ecl, edv, info = exp[fid]
+            return ["ok", ecl[2:], ecl[1], edv, ecl[0]]
+        for j in lj:
+            if "error" in j:
+                continue
+            jb = dict(kind="fis", mp=4, tryInt=lib["tryInt"], comp=j["comp"],
+                      table=[[_r7(lib["funcs"][f]["nll1"])] + list(lib["funcs"][f]["theta"]) + [0.0] * (4 - lib["funcs"][f]["n"]) for f in j["order"]],
+                      funcs=[[otok(f, 0), otok(f, 1)] for f in j["order"]])
+            ops.append(stages_corr.model_line(jb, j["P"]))
+            opjobs.append((jb, j))
+    if ops:
+        out = common.model(ops)
+        for (jb, j), ln in zip(opjobs, out):
+            stats["model_files"] += 1
+            real = ([" ".join(repr(v) for v in r) for r in j["cl"]], [" ".join(repr(v) for v in r) for r in j["dv"]], [])
+            d = stages_corr.compare(jb, j["P"], ln, real)
+            if d:
+                stats["model_file_mismatch"] += 1
+                ctx.disagree("corr:fisherFile", "library %s schedule %s (P=%d): %s" % (j["lib"]["name"], j["label"], j["P"], d))
+    stats["wall_s"] = round(time.time() - t0, 1)
+    return libs, stats
+
+
+def alias_check(ctx, cases):
+    """the real convert_params on array OBJECTS as main passes them: a row view of a table (what is written, and where), and a second
+    call on the same object"""
+    np = _env(ctx)["np"]
+    st = dict(cases=0, slot_written=0, second_call_compared=0)
+    for c in cases:
+        n, mp = c["n"], c["max_param"]
+        if n == 0:
+            continue
+        c = dict(c)
+        c["nll_in"] = _nll_in(ctx, c)
+        st["cases"] += 1
+        table = np.full((3, mp), 7.25)
+        table[:, :n] = np.array(c["theta"], dtype=float)
+        before = table.copy()
+        view = table[1, :]
+        first = _scripted_call(ctx, c, view, None)
+        fresh = _scripted_call(ctx, c, before[1].copy(), None)
+        changed = [(int(i), int(k)) for i, k in zip(*np.nonzero(~((table == before) | ((table != table) & (before != before)))))]
+        outside = [ik for ik in changed if ik[0] != 1 or ik[1] >= n]
+        notzero = [ik for ik in changed if ik[0] == 1 and ik[1] < n and table[ik] != 0.0]
+        if changed:
+            st["slot_written"] += 1
+        key = c["kind"].split(":")[0]
+        if outside or notzero:
+            ctx.fail("convert_params:writes-outside-own-slot:%s" % key,
+                     "convert_params(%r) handed row 1 of a 3-row table (theta=%r, width %d) changed the entries %r (outside row 1[:nparam]: %r; not a snap to zero: %r)"
+                     % (c["fcn"], c["theta"], mp, changed, outside, notzero), dict(kind="alias", case=c))
+        if first != fresh and not (first[0] == fresh[0] == "ok" and all(_row_eq(a if isinstance(a, list) else [a], b if isinstance(b, list) else [b]) for a, b in zip(first[1:], fresh[1:]))):
+            ctx.fail("convert_params:view-vs-copy:%s" % key, "convert_params(%r, theta=%r) returns %r when handed a row view of a table but %r when handed a copy"
+                     % (c["fcn"], c["theta"], first, fresh), dict(kind="alias", case=c))
+        # second call on the SAME object: for a linear-Gaussian model whose snapped likelihood is finite it must report what the first call reported
+        if _in_quantifier(c) and first[0] == "ok" and first[4] == first[4] and math.isfinite(first[2]):
+            F = _analytic_F(c)
+            N = [abs(c["theta"][i]) * math.sqrt(F[i] / 12.0) for i in range(n)]
+            if all(abs(v - 1.0) > 1e-4 for v in N):
+                second = _scripted_call(ctx, c, view, None)
+                st["second_call_compared"] += 1
+                ok = second[0] == "ok" and second[1] == first[1] and _close(second[2], first[2], tol=1e-9) and _close(second[4], first[4], 10.0, tol=1e-6)
+                if not ok:
+                    ctx.fail("convert_params:same-object-second-call:%s" % key,
+                             "convert_params(%r, theta=%r) called twice on one array object: first %r, second %r (a linear model: same curvature, the snapped coordinates stay snapped)"
+                             % (c["fcn"], c["theta"], first, second), dict(kind="alias", case=c))
+    return st
+
+
 def run(ctx):
     drift = extract.drifted(ctx.proof.get("extract", {}), MODELLED)
     deep = (not ctx.quick) or bool(drift)
@@ -665,8 +1062,17 @@ def run(ctx):
         for c in chunk:
             kinds[c["kind"]] = kinds.get(c["kind"], 0) + 1
     cov.stop()
-    ctx.extra["corr_obligations"] = 2
-    ctx.extra["corr_discharged"] = int(agg["mismatches"] == 0) + int(agg["deriv_mismatch"] == 0)
+    t1 = time.time()
+    ctx.extra["alias_calls"] = alias_check(ctx, [c for c in cases if c["n"] > 0][:: max(1, len(cases) // (400 if deep else 60))])
+    libs, fstats = family_check(ctx, deep)
+    for lib in libs:
+        # every library function through the oracle and the convert_params model as well (fresh-copy call)
+        process(ctx, [c for c in lib["funcs"]], record=False)
+    ctx.extra["row_independence"] = fstats
+    ctx.extra["family_wall_s"] = round(time.time() - t1, 1)
+    dis = set(d["name"] for d in ctx.disagreements)
+    ctx.extra["corr_obligations"] = 4
+    ctx.extra["corr_discharged"] = int(agg["mismatches"] == 0) + int(agg["deriv_mismatch"] == 0) + int("corr:fisherFile" not in dis) + int("corr:retry-reads-slot" not in dis)
     ctx.extra["correspondence"] = agg
     ctx.extra["input_distribution"] = dict(kinds=kinds, nparam={str(n): sum(1 for c in cases if c["n"] == n) for n in (1, 2, 3, 4)},
                                            max_param={str(n): sum(1 for c in cases if c["max_param"] == n) for n in (1, 2, 3, 4)},
@@ -681,7 +1087,50 @@ def run(ctx):
     ctx.extra["ambiguity_band"] = BAND
 
 
+def _replay_family(ctx, rp):
+    lib = rp["lib"]
+    for c in lib["funcs"]:
+        c["data"] = lib["data"]
+    jobs = [dict(lib=lib, label=sch["label"], order=sch["order"], P=sch["P"]) for sch in (rp["a"], rp.get("b")) if sch]
+    run_family_jobs(ctx, jobs, "replay")
+    ok = True
+    rows = []
+    for j in jobs:
+        if "error" in j:
+            print("schedule %s (P=%d): %s" % (j["label"], j["P"], j["error"][-600:]))
+            return False
+        print("schedule %s (P=%d, order %r): %d rows" % (j["label"], j["P"], j["order"], len(j["cl"])))
+        if len(j["cl"]) != len(j["order"]):
+            return False
+        if rp.get("fid") is not None:
+            i = j["order"].index(rp["fid"])
+            rows.append((j["cl"][i], j["dv"][i]))
+            print("  function %d %r at position %d: %r" % (rp["fid"], lib["funcs"][rp["fid"]]["fcn"], i, j["cl"][i]))
+    if rp["kind"] == "family" and len(rows) == 2:
+        ok = _row_eq(rows[0][0], rows[1][0]) and _row_eq(rows[0][1], rows[1][1])
+        print("rows of the function in the two schedules %s" % ("agree" if ok else "DIFFER"))
+    if rp["kind"] == "family-call" and rows:
+        c = lib["funcs"][rp["fid"]]
+        ecl, edv, info = expected_row(ctx, c, lib["tryInt"], _gen_flags().get("retryReadsSlot", True))
+        ok = _row_eq(rows[0][0], ecl) and _row_eq(rows[0][1], edv)
+        print("the routine outside main (%s): %r -> %s" % (info["kind"], ecl, "agree" if ok else "DIFFER"))
+    return ok
+
+
 def replay(ctx, data):
+    rp = data["replay"]
+    if rp.get("kind") in ("family", "family-call"):
+        return _replay_family(ctx, rp)
+    if rp.get("kind") == "alias":
+        n0 = len(ctx.failures) if hasattr(ctx, "failures") else 0
+        bad = []
+        orig = ctx.fail
+        ctx.fail = lambda k, w, r=None: (bad.append(k), print("FAIL[%s]: %s" % (k, w)))
+        try:
+            alias_check(ctx, [rp["case"]])
+        finally:
+            ctx.fail = orig
+        return not bad
     c = data["replay"]["case"]
     r = run_real(ctx, c)
     if c["n"] == 0:
